@@ -142,6 +142,10 @@ def retireAborted (sc : RetScenario) : List Bool :=
   if sc.abort || !sc.overlap then [true]
   else (drainResults sc.budget sc.sessions sc.idleAt sc.cancelAt).map fun r => r != .idle
 
+/-- `reloadFailureQuiesce` (component/outbound/dialer: Timeout + 10 s): after the suppression
+counter has returned to 0 node-failure reports stay muted for this long. -/
+def quiesceNs : Nat := 20000000000
+
 structure St where
   pending : Bool := false
   active : Bool := false
@@ -170,6 +174,13 @@ structure St where
   (meaningful while it is open), and the same for the one a blocked G is waiting for. -/
   mgrLeft : Nat := 0
   gLeft : Nat := 0
+  /-- remaining time of the post-reload mute window (`reloadProxyFailureSuppressUntil - now`). -/
+  muteLeft : Nat := 0
+  /-- the abort marker file `/var/run/dae.abort` exists. -/
+  marker : Bool := false
+  /-- abort decision carried by the queued request / by the request the worker is processing. -/
+  qAbort : Bool := false
+  wAbort : Bool := false
   deriving DecidableEq, Repr
 
 def init : St := {}
@@ -180,14 +191,15 @@ def busyOf (act : Bool) : Prog := if act then .busyActive else .busyRetiring
 (pushed in front of its remaining program). -/
 def exec (s : St) : Micro → St × List Micro
   | .casQ k =>
-    if s.pending then (s, [.writeBusy s.active])
-    else ({ s with pending := true }, [.beginSend k])
+    if s.pending then ({ s with marker := false }, [.writeBusy s.active])
+    else ({ s with pending := true, marker := false, qAbort := s.marker }, [.beginSend k])
   | .beginSend k =>
     if s.queue.length < 1 then
       ({ s with suppress := s.suppress + 1, queue := s.queue ++ [k] }, [])
     else
       ({ s with suppress := s.suppress + 1, pending := false }, [.endSupp, .writeBusyForce])
-  | .endSupp => ({ s with suppress := s.suppress - 1 }, [])
+  | .endSupp =>
+    ({ s with suppress := s.suppress - 1, muteLeft := if s.suppress = 1 then quiesceNs else s.muteLeft }, [])
   | .writeBusy act =>
     ({ s with progress := busyOf act }, if s.pending then [] else [.readProg])
   | .writeBusyForce => ({ s with progress := .busyActive }, [])
@@ -230,6 +242,7 @@ inductive Eff
   | clearPending | setStaged | clearStaged | clearRet | setMeta | beginHandoff | startRet
   | pprof | notify | fatal | storeReloading (b : Bool) | hooks | wait | result
   | finishFail | finishSucc | exitHold | exitIdle
+  | serveLit   -- `go func(){ … Serve … notifyRunStateChange }()`: nothing but a later notification
   | guard (g : GuardName) (pol : Bool)
   deriving DecidableEq, Repr
 
@@ -257,6 +270,7 @@ def expand1 : Eff → List Micro
   | .finishSucc => [.finishSucc]
   | .exitHold => [.exitHold]
   | .exitIdle => [.exitIdle]
+  | .serveLit => []
   | .guard _ _ => []
 
 def expand (es : List Eff) : List Micro := es.flatMap expand1
@@ -267,8 +281,8 @@ def wHead : List Eff := [.setActive true, .coalesce, .setProg .processing, .setE
 def wFail : List Eff := [.setProg .error, .setActive false, .clearPending]
 
 def wSwitch (stagedEff : Eff) (retire : Bool) : List Eff :=
-  [stagedEff, .clearRet, .setMeta, .beginHandoff, .guard .retire retire] ++
-    (if retire then [.startRet] else []) ++ [.pprof, .notify]
+  [stagedEff, .clearRet, .setMeta, .guard .retire retire] ++
+    (if retire then [.startRet] else []) ++ [.beginHandoff, .pprof, .notify]
 
 /-- every control-flow path of the worker body, loop head to `continue` / end / Fatalln. -/
 def workerPaths : List (List Eff) :=
@@ -299,7 +313,7 @@ structure HPath where
   effs : List Eff
   deriving DecidableEq, Repr
 
-def hServePre : List Eff := [.storeReloading false, .hooks, .wait]
+def hServePre : List Eff := [.storeReloading false, .hooks, .serveLit, .wait]
 
 /-- every control-flow path of `case <-runStateChanges:`. -/
 def handlerPaths : List HPath :=
@@ -318,10 +332,10 @@ def handlerPaths : List HPath :=
     ⟨true, false, hServePre ++ [.guard .term false, .guard .notready false, .guard .staged true,
         .clearStaged, .startRet, .result, .finishSucc]⟩,
     -- re-listen branch (listener == nil)
-    ⟨true, true, [.wait, .guard .term true, .exitHold]⟩,
-    ⟨true, true, [.wait, .guard .term false, .guard .notready true, .setErr true, .setProg .error,
+    ⟨true, true, [.serveLit, .wait, .guard .term true, .exitHold]⟩,
+    ⟨true, true, [.serveLit, .wait, .guard .term false, .guard .notready true, .setErr true, .setProg .error,
         .storeReloading false, .setActive false, .clearPending]⟩,
-    ⟨true, true, [.wait, .guard .term false, .guard .notready false, .result, .finishSucc]⟩ ]
+    ⟨true, true, [.serveLit, .wait, .guard .term false, .guard .notready false, .result, .finishSucc]⟩ ]
 
 /-! ## Actions -/
 
@@ -338,11 +352,13 @@ inductive Act
   | gStore | gEnd | gRead | gWrite   -- a G runs its next section of clearReloadPending
   | chooseRet (sc : RetScenario)     -- the environment fixes the circumstances of the next retirement
   | tick (d : Nat)                   -- time passes; not beyond the completion time of an open retirement
+  | cliMark                          -- a `-a` client leaves the abort marker (just before it signals)
+  | spuriousNotify                   -- a Serve goroutine ends: notifyRunStateChange
   deriving DecidableEq, Repr
 
 /-- environment inputs; everything else is the system's own progress. -/
 def Act.isExternal : Act → Bool
-  | .sig _ | .swallow _ | .term | .cliSend | .chooseRet _ | .tick _ => true
+  | .sig _ | .swallow _ | .term | .cliSend | .chooseRet _ | .tick _ | .cliMark | .spuriousNotify => true
   | _ => false
 
 def step (s : St) (a : Act) : Option St :=
@@ -351,7 +367,7 @@ def step (s : St) (a : Act) : Option St :=
   | .sig k => if s.m.isEmpty then some { s with m := [.casQ k] } else none
   | .swallow _ =>
     match s.m with
-    | .waitReady :: _ => some { s with progress := .busyActive }
+    | .waitReady :: _ => some { s with progress := .busyActive, marker := false }
     | _ => none
   | .term => if s.m.isEmpty then some { s with exited := true } else none
   | .cliSend => if s.progress.cliAccepts then some { s with progress := .send } else none
@@ -364,7 +380,7 @@ def step (s : St) (a : Act) : Option St :=
   | .wStart i =>
     if s.w.isEmpty then
       match s.queue, workerPaths[i]? with
-      | _ :: q, some p => some { s with queue := q, w := expand p }
+      | _ :: q, some p => some { s with queue := q, w := expand p, wAbort := s.qAbort }
       | _, _ => none
     else none
   | .stepM =>
@@ -391,9 +407,11 @@ def step (s : St) (a : Act) : Option St :=
     if 0 < s.gWrite then
       some { (exec s .writeClr).1 with gWrite := s.gWrite - 1 } else none
   | .chooseRet sc => if 0 ≤ sc.age then some { s with nextRet := sc } else none
+  | .cliMark => some { s with marker := true }
+  | .spuriousNotify => some { s with notify := true }
   | .tick d =>
     if (s.retDone != some false || decide (d ≤ s.mgrLeft)) && (s.gBlocked == 0 || decide (d ≤ s.gLeft)) then
-      some { s with mgrLeft := s.mgrLeft - d, gLeft := s.gLeft - d } else none
+      some { s with mgrLeft := s.mgrLeft - d, gLeft := s.gLeft - d, muteLeft := s.muteLeft - d } else none
 
 /-- run a schedule; `none` as soon as an action is not enabled. -/
 def runActs (s : St) : List Act → Option St
